@@ -118,6 +118,9 @@ def enum_cases(tier, seed):
 
 @st.composite
 def hyp_case(draw, big):
+    if draw(st.integers(0, 31)) == 0:
+        n = draw(st.integers(501, 640))
+        return {"seq": draw(gens.exact_words("KRDEGSPQAL", n)), "w": draw(st.sampled_from([5, 6])), "kind": "sigma"}
     if draw(st.integers(0, 15)) == 0:
         seq = draw(gens.long_charged(129, 320))
         N = len(seq)
